@@ -89,6 +89,9 @@ Section Tx.
         destruct (contract_execute_frame _ _ _ _ _ _ _ _ _ _ _ _ CE) as [Fb Fr].
         assert (Hne : a_id sender <> a_id receiver).
         { intros E. destruct (Hal E) as [X _]. congruence. }
+        assert (Ef : c_fix_f24 cfg && (a_id sd' =? a_id rc')%N = false).
+        { rewrite I1, I2. destruct (N.eqb_spec (a_id sender) (a_id receiver)); [congruence|apply andb_false_r]. }
+        rewrite Ef.
         destruct c.
         * destruct Hc as (F0&N1&B1&B2&PP&[Hpay|(_&X&_)]); [|congruence].
           apply Fin; auto.
